@@ -738,9 +738,13 @@ class HierarchicalMachine(Machine):
         cur_dst = self.state_cls.separator.join(dest_path)
         if trigger in self.scoped.events:
             evt = self.scoped.events[trigger]
-            for src, transitions in evt.transitions.items():
+            for src, transitions in list(evt.transitions.items()):
                 evt.transitions[src] = [trans for trans in transitions
                                         if (src_path and trans.source != cur_src) or (cur_dst and trans.dest != cur_dst)]
+                if not evt.transitions[src]:  # a state without transitions is no source of the event any longer
+                    del evt.transitions[src]
+            if not evt.transitions:
+                del self.scoped.events[trigger]
         for state_name in self.scoped.states:
             with self(state_name):
                 if state_name in [cur_src, cur_dst]:
